@@ -20,9 +20,19 @@ def gen(rng):
     v = '1.3'
     base_specs = ['a:1', 'e:1', 'b:1']
     ops = [multi.add_op(W, base_specs, v)]
-    if rng.random() < 0.6:
+    r0 = rng.random()
+    if r0 < 0.25:
+        # an extension is installed, the database is navigated in default mode, the extension is removed and an
+        # unrelated lexicon sharing ILIs takes its rowid: later navigation must not remember the old family
+        ops.append(multi.add_op(W, ['ax:1'], v))
+        ops.append({'k': 'battery', 'warm': True})
+        ops.append({'k': 'remove', 'spec': 'ax:1', '_removed': ['ax:1']})
+        ops.append(multi.add_op(W, ['u:1'], v))
+    elif r0 < 0.7:
         ops.append(multi.add_op(W, ['ax:1'], v))
     sels = rng.sample(multi.SELECTIONS, 6)
+    if r0 < 0.25 and {} not in sels:
+        sels[0] = {}
     for s in sels:
         ops.append(dict({'k': 'battery'}, **s))
     # outside change
@@ -108,13 +118,14 @@ def judge(ctx, sc, im):
     ops = sc['ops']
     n = sc['nsel']
     bat_idx = [k for k, op in enumerate(ops) if op['k'] == 'battery']
-    first, second = bat_idx[:n], bat_idx[n:]
+    paired = [k for k in bat_idx if not ops[k].get('warm')]
+    first, second = paired[:n], paired[n:]
     change_idx = first[-1] + 1
     for k in bat_idx:
         b = im[k]
         if b == 'error':
             continue
-        args = {a: v for a, v in ops[k].items() if a != 'k'}
+        args = {a: v for a, v in ops[k].items() if a not in ('k', 'warm')}
         b = store.canon_battery(b)
         inst = multi.installed_after(sc, im, k)
         default_mode = not args.get('lexicon') and not args.get('lang')
